@@ -65,6 +65,22 @@ HoleT(ty) == [t |-> "Hole", ty |-> ty]
 A == HoleT("A")  Bh == HoleT("B")  M == HoleT("M")  Cc == HoleT("C")
 PoolFor(ty) == CASE ty = "A" -> PoolA [] ty = "B" -> PoolB [] ty = "M" -> PoolM [] ty = "C" -> PoolC
 
+\* hole counting / filling in one pass (Expr's NHoles / FillFirst re-evaluate lazy function
+\* expressions: exponential in the depth of the tree, which the host skeletons made deeper)
+RECURSIVE NH(_), Fill1(_, _)
+NH(e) == IF e.t = "Hole" THEN 1 ELSE SumOver(Kids(e), NH)
+\* e with its first hole (left to right) replaced by s; e itself when it has none
+Fill1(e, s) ==
+    IF e.t = "Hole" THEN s
+    ELSE LET ks == Kids(e)
+             RECURSIVE Go(_)
+             Go(i) == IF i > Len(ks) THEN << >>
+                      ELSE LET k2 == Fill1(ks[i], s) IN
+                           IF k2 # ks[i] THEN << k2 >> \o SubSeq(ks, i + 1, Len(ks))
+                           ELSE << ks[i] >> \o Go(i + 1)
+             ks2 == Go(1)
+         IN IF ks2 = ks THEN e ELSE WithKids(e, ks2)
+
 RECURSIVE FirstHoleTy(_)
 FirstHoleTy(e) ==
     IF e.t = "Hole" THEN e.ty
@@ -162,19 +178,19 @@ XFor(s) == IF FirstHoleTy(s) = "F" THEN XPool \cup { FX } ELSE XPool
 Partner(X) == IF X = FX THEN S ELSE X
 Twin(X) == IF X = S THEN Sc ELSE IF X = P THEN Pc ELSE X
 PosLists(s, X) ==
-    LET h  == FillFirst(s, X)
-        h2 == FillFirst(Ren(s), X)
+    LET h  == Fill1(s, X)
+        h2 == Fill1(Ren(s), X)
     IN { L(<< h, Partner(X) >>),                                  \* host and the bare repeat
          L(<< N("Sum", << h, KI(1) >>), N("Product", << h2, KI(2) >>) >>) }   \* two hosts
        \cup (IF Tier = "thorough" THEN { L(<< Twin(Partner(X)), h >>), L(<< h, h2, vc >>) } ELSE {})
 PosRoots(tmpls) == UNION { UNION { PosLists(s, X) : X \in XFor(s) } : s \in UNION { Puts(t) : t \in tmpls } }
-PosRootsNeg == { L(<< FillFirst(s, S), S >>) : s \in UNION { Puts(t) : t \in HostTemplatesNeg } }
+PosRootsNeg == { L(<< Fill1(s, S), S >>) : s \in UNION { Puts(t) : t \in HostTemplatesNeg } }
 \* hole-filled hosts: whatever the pools hold, in a host position next to a pool element
 PosHoleRoots ==
     IF Tier = "quick"
     THEN { L(<< Call(A, << vc >>), A >>), L(<< IfE(Cmp(A, "<", vc), Bh, vb), A >>),
            L(<< B("Sub", tt, A), Bh >>), L(<< Call(IfE(Cmp(A, "<", vc), ff, gg), << va >>), Bh >>) }
-    ELSE { L(<< FillFirst(s, M), Bh >>) : s \in UNION { Puts(t) : t \in HostTemplates } }
+    ELSE { L(<< Fill1(s, M), Bh >>) : s \in UNION { Puts(t) : t \in HostTemplates } }
          \cup { L(<< Call(IfE(Cmp(M, "<", vc), ff, gg), << Cc >>), M >>) }
 TagRoots == IF Tier = "neg" THEN TagRootsNeg \cup PosRootsNeg
             ELSE KindRoots \cup PosRoots(HostTemplates) \cup PosHoleRoots
@@ -216,14 +232,14 @@ Init == /\ fuel = (IF Mode = "rand" THEN 6 ELSE 0)
            ELSE cas \in { TagCase(r) : r \in TagRoots } \cup WrapCells
 
 IsTag == cas.k = "tag"
-Next == /\ IsTag /\ NHoles(cas.tr) > 0
+Next == /\ IsTag /\ NH(cas.tr) > 0
         /\ IF Mode = "rand" /\ fuel > 0
-           THEN \/ \E s \in RandSkel : cas' = TagCase(FillFirst(cas.tr, s)) /\ fuel' = fuel - 1
-                \/ \E s \in PoolA : cas' = TagCase(FillFirst(cas.tr, s)) /\ fuel' = fuel
+           THEN \/ \E s \in RandSkel : cas' = TagCase(Fill1(cas.tr, s)) /\ fuel' = fuel - 1
+                \/ \E s \in PoolA : cas' = TagCase(Fill1(cas.tr, s)) /\ fuel' = fuel
            ELSE \E s \in PoolFor(IF Mode = "rand" THEN "A" ELSE FirstHoleTy(cas.tr)) :
-                   cas' = TagCase(FillFirst(cas.tr, s)) /\ fuel' = fuel
+                   cas' = TagCase(Fill1(cas.tr, s)) /\ fuel' = fuel
 
-Complete == ~IsTag \/ NHoles(cas.tr) = 0
+Complete == ~IsTag \/ NH(cas.tr) = 0
 Ins == cas.tr.c
 
 \* ---- everything the model says about one list, computed once ---------------------
